@@ -156,6 +156,15 @@ CHECKS["C13"] = dict(category="exploration",
       note="One open known finding (a complete hit displaced by a short fragment that is then removed as incomplete: stage order, needs a maintainer "
            "decision). Cross-process hash-seed invariance is C17's.",
       design="3/C13")
+CHECKS["C06"] = dict(category="exploration",
+      technique="exhaustive enumeration of area multisets on small lines/rings + Hypothesis layouts against union-find components on the set-of-bases model; Hypothesis rule-based state machine over add/clear/create histories with invariants after every step",
+      text="Every multiset of up to 3 arcs (4 on the smallest records) on lines and rings up to length 6 (thorough 9), and random layouts of up to 11 "
+           "subregions / candidate clusters / protoclusters on records up to 3000 bases, go through Record.create_regions: creation must succeed, "
+           "regions are disjoint, in bijection with the connected components of 'areas overlap', span exactly the union of their members, and "
+           "are numbered in location order. A RuleBasedStateMachine (10 rules, 50 steps) and a weighted plain-data history generator check "
+           "numbering, lookup identity, parent links, cds.region and re-creation equality after every step.",
+      note="Location order is asserted among features that do not cross the origin. Exceptions from candidate cluster creation end a case without verdict (C05).",
+      design="3/C06")
 NOT_YET = {}
 
 def main():
